@@ -35,15 +35,15 @@ type tier struct {
 
 // per-property run budgets (quick: fixed run counts so that evidence is repeatable)
 var quick = map[string]tier{
-	"C01": {runs: 24000}, "C02": {runs: 48000}, "C03": {runs: 32000}, "C04": {runs: 24000}, "C06": {runs: 32000},
-	"C07": {runs: 48000}, "C08": {runs: 12000}, "C09": {runs: 24000}, "C10": {runs: 16000}, "C11": {runs: 24000},
-	"C13": {runs: 24000}, "C17": {runs: 24000},
+	"C01": {runs: 48000}, "C02": {runs: 96000}, "C03": {runs: 96000}, "C04": {runs: 48000}, "C06": {runs: 64000},
+	"C07": {runs: 96000}, "C08": {runs: 16000}, "C09": {runs: 64000}, "C10": {runs: 16000}, "C11": {runs: 64000},
+	"C13": {runs: 64000}, "C17": {runs: 64000},
 }
 
 var thorough = map[string]tier{
-	"C01": {budgetS: 420}, "C02": {budgetS: 420}, "C03": {budgetS: 420}, "C04": {budgetS: 420}, "C06": {budgetS: 300},
-	"C07": {budgetS: 300}, "C08": {budgetS: 600}, "C09": {budgetS: 420}, "C10": {budgetS: 420}, "C11": {budgetS: 300},
-	"C13": {budgetS: 420}, "C17": {budgetS: 300},
+	"C01": {budgetS: 600}, "C02": {budgetS: 600}, "C03": {budgetS: 600}, "C04": {budgetS: 600}, "C06": {budgetS: 480},
+	"C07": {budgetS: 480}, "C08": {budgetS: 900}, "C09": {budgetS: 600}, "C10": {budgetS: 900}, "C11": {budgetS: 480},
+	"C13": {budgetS: 600}, "C17": {budgetS: 480},
 }
 
 type Finding struct {
@@ -98,6 +98,7 @@ type Summary struct {
 	FirstSeed  int64          `json:"first_seed"`
 	LastSeed   int64          `json:"last_seed"`
 	RaceBuild  bool           `json:"race_build"`
+	Seqs       []string       `json:"seqs"`
 }
 
 var (
@@ -270,7 +271,7 @@ func main() {
 				e := []string{
 					"VERIF_PROP=" + prop, "VERIF_MODE=sweep", fmt.Sprintf("VERIF_BASE=%d", seed),
 					fmt.Sprintf("VERIF_SEED0=%d", idx0), fmt.Sprintf("VERIF_STRIDE=%d", workers),
-					"VERIF_OUT=" + outF, "VERIF_PROGRESS=" + progF,
+					"VERIF_OUT=" + outF, "VERIF_PROGRESS=" + progF, "VERIF_TIER=" + tierName,
 					"GORACE=log_path=" + filepath.Join(workDir, fmt.Sprintf("race.%d", w)) + " halt_on_error=0 exitcode=0",
 				}
 				n := 0
@@ -317,7 +318,13 @@ func main() {
 
 	// 3. crashes: confirm by running the seed alone in a fresh process
 	exit := 0
-	os.MkdirAll(filepath.Join(verifDir, "replays"), 0o755)
+	replayDir := filepath.Join(verifDir, "replays")
+	evidenceDir := filepath.Join(verifDir, "evidence")
+	if d := os.Getenv("VERIF_OUT_DIR"); d != "" {
+		// development aid (judging an edited copy): keep /verif/evidence and /verif/replays untouched
+		replayDir, evidenceDir = filepath.Join(d, "replays"), filepath.Join(d, "evidence")
+	}
+	os.MkdirAll(replayDir, 0o755)
 	var lines []string
 	known := loadFindings()
 	knownHit := map[string]int{}
@@ -327,7 +334,7 @@ func main() {
 		parts := strings.SplitN(c, "|", 3)
 		idx, _ := strconv.ParseInt(parts[0], 10, 64)
 		sd, _ := strconv.ParseInt(parts[1], 10, 64)
-		e := []string{"VERIF_PROP=" + prop, "VERIF_MODE=sweep", fmt.Sprintf("VERIF_BASE=%d", seed), fmt.Sprintf("VERIF_SEED0=%d", idx),
+		e := []string{"VERIF_PROP=" + prop, "VERIF_MODE=sweep", fmt.Sprintf("VERIF_BASE=%d", seed), fmt.Sprintf("VERIF_SEED0=%d", idx), "VERIF_TIER=" + tierName,
 			"VERIF_STRIDE=1", "VERIF_N=1", "VERIF_DET_EVERY=0", "VERIF_OUT=" + filepath.Join(workDir, "crash.jsonl")}
 		out, err := runWorker(bin, e, 5*time.Minute)
 		if err == nil {
@@ -339,9 +346,9 @@ func main() {
 			knownSeed[f.ID] = sd
 			continue
 		}
-		path := filepath.Join(verifDir, "replays", fmt.Sprintf("%s-%d.json", prop, sd))
+		path := filepath.Join(replayDir, fmt.Sprintf("%s-%d.json", prop, sd))
 		rec := map[string]any{"property": prop, "seed": sd, "code": "process-crash", "signature": prop + ":crash:" + sig,
-			"crash": true, "base": seed, "index": idx, "output_tail": lastLines(out, 60)}
+			"crash": true, "base": seed, "index": idx, "tier": tierName, "output_tail": lastLines(out, 60)}
 		b, _ := json.MarshalIndent(rec, "", " ")
 		os.WriteFile(path, b, 0o644)
 		lines = append(lines, fmt.Sprintf("VIOLATION property=%s replay=%s", prop, path))
@@ -396,7 +403,7 @@ func main() {
 		}
 		reported++
 		r := fresh[0]
-		path := filepath.Join(verifDir, "replays", fmt.Sprintf("%s-%d.json", prop, r.Seed))
+		path := filepath.Join(replayDir, fmt.Sprintf("%s-%d.json", prop, r.Seed))
 		useBin := bin
 		if strings.Contains(sig, ":race:") && raceBin != "" {
 			useBin = raceBin
@@ -426,9 +433,9 @@ func main() {
 
 	// 5. evidence
 	ev := evidence(prop, tierName, seed, sums, recs, crashes, knownHit, time.Since(start), workers, race)
-	os.MkdirAll(filepath.Join(verifDir, "evidence"), 0o755)
+	os.MkdirAll(evidenceDir, 0o755)
 	eb, _ := json.MarshalIndent(ev, "", " ")
-	if err := os.WriteFile(filepath.Join(verifDir, "evidence", prop+".json"), eb, 0o644); err != nil {
+	if err := os.WriteFile(filepath.Join(evidenceDir, prop+".json"), eb, 0o644); err != nil {
 		die2("cannot write evidence: %v", err)
 	}
 
@@ -499,7 +506,7 @@ func runWorker(bin string, e []string, limit time.Duration) ([]byte, error) {
 	cmd.Env = append(append([]string{}, env...), e...)
 	cmd.SysProcAttr = &syscall.SysProcAttr{Setpgid: true}
 	var buf bytes.Buffer
-	cmd.Stdout = &buf
+	cmd.Stdout = nil // what the library prints in debug mode; panics and race reports go to stderr
 	cmd.Stderr = &buf
 	if err := cmd.Start(); err != nil {
 		return nil, err
@@ -644,10 +651,11 @@ func doReplay(prop, bin, raceBin, file string) int {
 		Base  int64  `json:"base"`
 		Index int64  `json:"index"`
 		Sig   string `json:"signature"`
+		Tier  string `json:"tier"`
 	}
 	json.Unmarshal(b, &head)
 	if head.Crash {
-		e := []string{"VERIF_PROP=" + prop, "VERIF_MODE=sweep", fmt.Sprintf("VERIF_BASE=%d", head.Base), fmt.Sprintf("VERIF_SEED0=%d", head.Index),
+		e := []string{"VERIF_PROP=" + prop, "VERIF_MODE=sweep", fmt.Sprintf("VERIF_BASE=%d", head.Base), fmt.Sprintf("VERIF_SEED0=%d", head.Index), "VERIF_TIER=" + head.Tier,
 			"VERIF_STRIDE=1", "VERIF_N=1", "VERIF_DET_EVERY=0", "VERIF_OUT=" + filepath.Join(workDir, "crash.jsonl")}
 		out, err := runWorker(bin, e, 5*time.Minute)
 		if err != nil {
@@ -701,7 +709,11 @@ func evidence(prop, tierName string, seed int64, sums []Summary, recs []Record, 
 	shapes := map[uint64]bool{}
 	inter := map[uint64]bool{}
 	var samples []any
+	seqs := map[string]bool{}
 	for _, s := range sums {
+		for _, q := range s.Seqs {
+			seqs[q] = true
+		}
 		runs += s.Runs
 		failing += s.Failing
 		calls += s.Calls
@@ -776,6 +788,18 @@ func evidence(prop, tierName string, seed int64, sums []Summary, recs []Record, 
 		"real_code":                     "uhppote (all operations, sendto/broadcast/listen filters, ut0311 driver incl. loops, deadlines, defers, goroutines, guard), encoding/UTO311-L0x, encoding/bcd, messages, types, setSocketOptions (against a throw-away kernel socket)",
 		"stubs":                         "OS network stack (verif/sim/vnet), controllers and event senders (scenario emission plans), wall clock (testing/synctest), goroutine choice (seeded scheduler)",
 	}
+	if prop == "C03" {
+		// class sequences of length <= 2 per delivery path: 3 paths x (1 + 9 + 81)
+		cov["class_sequences_len2_reached"] = len(seqs)
+		cov["class_sequences_len2_space"] = 3 * (1 + 9 + 81)
+	}
+	var zero []string
+	for _, probe := range []string{"kernel:tie:data-at-deadline", "kernel:read-truncated", "probe:lock-had-to-wait", "kernel:read-timeout", "kernel:udp-lost:no-socket"} {
+		if counters[probe] == 0 {
+			zero = append(zero, probe)
+		}
+	}
+	cov["probes_at_zero"] = zero
 	if race {
 		cov["race_detector_runs"] = raceRuns
 		cov["distinct_schedules"] = len(inter)
